@@ -225,8 +225,11 @@ def check_eval_arg(prog):
     key = "eval_arg:tailstrict"
     if h is None:
         return [bad(RULE, key, "", "eval_arg not found")]
+    # the flag is eval_arg's bool parameter (called `tailstrict` today)
+    ti = f.param(name="tailstrict", ty="bool") if f is not None else None
+    tname = f.arg_names[ti - 1] if ti and ti - 1 < len(f.arg_names) else "tailstrict"
     for n in H.nodes(h["body"], "if"):
-        if H.local_name(n[1]) == "tailstrict":
+        if H.local_name(n[1]) == tname:
             then_f = [c for c in eager_calls(n[2]) if c[0] in FORCING]
             else_f = [c for c in eager_calls(n[3]) if c[0] in FORCING] if n[3] else []
             outside = [c for c in eager_calls(h["body"]) if c[0] in FORCING]
